@@ -209,7 +209,10 @@ def gen_library_history(rng, schema, n_ops, rich_tracks=2, hostile=False):
             push(FO.gen_crate_op(rng, st, hostile=hostile))
         elif r < 0.72:
             push(FO.gen_track_create(rng, st, rich=rng.random() < 0.5))
-        elif r < 0.76 and schema.startswith("2."):
+        elif r < 0.74 and lt:
+            # rows in the tables only Engine DJ writes (prepare list, history, copy records) that name one of the tracks
+            push(({"op": "foreign_rows", "t": rng.choice(lt)}, {"kind": "foreign_rows"}))
+        elif r < 0.78 and schema.startswith("2."):
             # a chain re-linked by a foreign writer (Engine DJ re-ordering a list): harness SQL, not a library call
             push(FO.gen_foreign_reorder(rng, st))
         else:
